@@ -1,4 +1,4 @@
-(* Clone/PairsTie.v — tie of the decision functions of Clone/Pairs.v to the Go source by *decision tables*.
+(* Tie/CloneTie.v — tie of the decision functions of Clone/Pairs.v to the Go source by *decision tables*.
 
    The translator (translator/gen_clone.go, via the interpreter translator/goeval.go) evaluates
      CloneDetector.classifyCloneType, CloneDetector.isOverlappingLocation, CloneDetector.shouldIncludeFragment
